@@ -110,6 +110,7 @@ def case_lattice(mon: Monitor, rng: random.Random) -> None:
     rng.shuffle(order)
     gs = [gs[i] for i in order]
     rects = [rects[i] for i in order]
+    gen.maybe_warm(*gs)  # operands that were looked at (footprint, hash, ...) before being combined
     desc = {"base": gen.gbox_desc(base), "family": fam, "placement": placement, "rects": rects}
     cls = f"{fam}|{placement}"
     sig = hsig("L", fam, tuple(rects))
@@ -293,7 +294,8 @@ def case_reject(mon: Monitor, rng: random.Random) -> None:
         ang = rng.choice([0.1, -0.1, 1, 30, 90, 180])
         other = base.translate_pix(tx, ty) * Affine.rotation(ang)
     other = other.crop((rng.randint(1, 12), rng.randint(1, 12)))
-    desc = {"base": gen.gbox_desc(base), "other": gen.gbox_desc(other), "family": fam, "perturbation": kind}
+    warmed = gen.maybe_warm(base, other, p=0.6)
+    desc = {"base": gen.gbox_desc(base), "other": gen.gbox_desc(other), "family": fam, "perturbation": kind, "operands_looked_at_before": warmed}
     from odc.geo.geobox import geobox_intersection_conservative, geobox_union_conservative
 
     for label, fn in (("or", lambda: base | other), ("and", lambda: base & other), ("overlap_roi", lambda: base.overlap_roi(other)),
